@@ -449,11 +449,18 @@ func EVAL(ctx context.Context, ast MalType, env EnvType) (res MalType, e error) 
 			ast = quasiquote(a1)
 		case "defmacro":
 			fn, e := EVAL(ctx, a2, env)
-			fn = fn.(MalFunc).SetMacro()
 			if e != nil {
 				return nil, e
 			}
-			return env.Set(a1.(Symbol), fn), nil
+			mfn, ok := fn.(MalFunc)
+			if !ok {
+				return nil, lisperror.NewLispError(fmt.Errorf("defmacro requires a function (was of type %T)", fn), ast)
+			}
+			name, ok := a1.(Symbol)
+			if !ok {
+				return nil, lisperror.NewLispError(fmt.Errorf("cannot use '%T' as identifier", a1), ast)
+			}
+			return env.Set(name, mfn.SetMacro()), nil
 		case "macroexpand":
 			return macroexpand(ctx, a1, env)
 		case "try":
